@@ -10,9 +10,6 @@ Arguments step : simpl never.
 
 Import Case_C02.
 
-Definition entry_ok (x : occ_entry) : bool :=
-  match x with (_, entering, n, locked) => (n <=? 1) && locked && (if entering then Nat.eqb n 1 else Nat.eqb n 0) end.
-
 (* threads beyond the configured ones have no program and never move *)
 Definition quiet_beyond (nT : nat) (s : state) : Prop :=
   forall t, nT <= t -> t_prog (thr s t) = [] /\ t_pc (thr s t) = PIdle /\ t_cs (thr s t) = [].
@@ -104,37 +101,184 @@ Proof.
     unfold is_locked. destruct (o_fd (objs (step s t) o1)); [reflexivity|congruence].
 Qed.
 
+(* ---------- the log is self-consistent ------------------------------------------------------- *)
+
+Definition nocrash (tr : list (ev * nat)) : bool :=
+  forallb (fun x => match fst x with ECrash _ => false | _ => true end) tr.
+
+(* cur = the threads (below nT) that are inside in s *)
+Definition tracks (nT : nat) (cur : list nat) (s : state) : Prop :=
+  NoDup cur /\ forall t, In t cur <-> (t < nT /\ inside_b s t = true).
+
+Lemma tracks_short nT cur s : Inv s -> tracks nT cur s -> length cur <= 1.
+Proof.
+  intros HI [ND H]. destruct cur as [|x [|y r]]; cbn; try lia. exfalso.
+  assert (x = y).
+  { apply (mutex_inv s); auto; apply H; cbn; auto. }
+  subst. inversion ND as [|? ? Hn _]. apply Hn. now left.
+Qed.
+
+Lemma mem_In t l : mem t l = true <-> In t l.
+Proof.
+  unfold mem. rewrite existsb_exists. split.
+  - intros (x & Hx & E). apply Nat.eqb_eq in E. now subst.
+  - intros H. exists t. split; auto. apply Nat.eqb_refl.
+Qed.
+
+Lemma In_del t l x : In x (del t l) <-> (In x l /\ x <> t).
+Proof.
+  unfold del. rewrite filter_In. split; intros [A B]; split; auto.
+  - intros ->. rewrite Nat.eqb_refl in B. discriminate.
+  - destruct (Nat.eqb_spec x t); [contradiction|reflexivity].
+Qed.
+
+Lemma consistent_complete nT : forall tr s cur,
+  Inv s -> quiet_beyond nT s -> viol (run s (map fst tr)) = false -> nocrash tr = true ->
+  tracks nT cur s -> occ_consistent cur (snd (replay nT s tr)) = true.
+Proof.
+  induction tr as [|[e code] rest IH]; intros s cur HI HQ Hv Hnc HT; [reflexivity|].
+  cbn [replay map fst nocrash forallb] in *. apply andb_prop in Hnc. destruct Hnc as [Hnc1 Hnc].
+  change (run s (e :: map fst rest)) with (run (apply s e) (map fst rest)) in Hv.
+  assert (Hv' : viol (apply s e) = false).
+  { destruct (viol (apply s e)) eqn:E; auto. rewrite (viol_run_mono _ _ E) in Hv. discriminate. }
+  assert (HI' : Inv (apply s e)) by (apply Inv_apply; auto).
+  assert (HQ' : quiet_beyond nT (apply s e)) by (apply quiet_apply; auto).
+  pose proof (tracks_short _ _ _ HI HT) as Hlen.
+  destruct HT as [ND HT].
+  (* events that do not change anybody's inside status keep cur *)
+  assert (Keep : (forall t, inside_b (apply s e) t = inside_b s t) -> tracks nT cur (apply s e)).
+  { intros E. split; auto. intros t. rewrite E. apply HT. }
+  specialize (IH (apply s e)).
+  destruct (replay nT (apply s e) rest) as [[g s2] oc] eqn:Erp. cbv beta iota zeta delta [fst snd] in *.
+  destruct e as [t|n|p]; [|apply (IH cur); auto; apply Keep; reflexivity|discriminate].
+  cbn [apply] in *.
+  assert (Oth : forall t', t' <> t -> inside_b (step s t) t' = inside_b s t') by (intros; now apply inside_other).
+  destruct (inside_b s t) eqn:Ein, (inside_b (step s t) t) eqn:Ein'; cbn [app].
+  - apply (IH cur); auto. apply Keep. intros t'. destruct (Nat.eq_dec t' t) as [->|Hn]; [congruence|auto].
+  - (* t leaves *)
+    assert (Ht : t < nT).
+    { destruct (Nat.lt_ge_cases t nT) as [L|G]; auto. destruct (HQ t G) as (_ & _ & C).
+      unfold inside_b in Ein. rewrite C, andb_false_r in Ein. discriminate. }
+    assert (Hin : In t cur) by (apply HT; auto).
+    assert (HT' : tracks nT (del t cur) (step s t)).
+    { split.
+      - unfold del. apply NoDup_filter. exact ND.
+      - intros t'. rewrite In_del, HT. destruct (Nat.eq_dec t' t) as [->|Hn].
+        + split; [intros [_ C]; congruence|intros [_ C]; congruence].
+        + rewrite Oth by auto. tauto. }
+    cbn [occ_consistent occ_next]. rewrite (proj2 (mem_In t cur) Hin). cbn [andb].
+    assert (Z : count_inside (step s t) nT = length (del t cur)).
+    { rewrite count_inside_zero.
+      - destruct cur as [|x [|y r]]; cbn in Hlen; try lia; [destruct Hin|].
+        destruct Hin as [->|[]]. cbn. now rewrite Nat.eqb_refl.
+      - intros t' Ht'. destruct (Nat.eq_dec t' t) as [->|Hn]; auto. rewrite Oth by auto.
+        destruct (inside_b s t') eqn:E; auto. exfalso. apply Hn. apply (mutex_inv s t' t HI E Ein). }
+    rewrite Z, Nat.eqb_refl. cbn [andb]. apply IH; auto.
+  - (* t enters *)
+    assert (Ht : t < nT).
+    { destruct (Nat.lt_ge_cases t nT) as [L|G]; auto. destruct (HQ' t G) as (_ & _ & C).
+      unfold inside_b in Ein'. rewrite C, andb_false_r in Ein'. discriminate. }
+    assert (Hnin : ~ In t cur) by (intros C; apply HT in C; destruct C; congruence).
+    assert (Hemp : cur = []).
+    { destruct cur as [|x r]; auto. exfalso. assert (Hx : In x (x :: r)) by now left.
+      apply HT in Hx. destruct Hx as [Hx1 Hx2]. assert (x <> t) by (intros ->; apply Hnin; now left).
+      rewrite <- Oth in Hx2 by auto. apply H. apply (mutex_inv (step s t) x t HI' Hx2 Ein'). }
+    subst cur.
+    assert (HT' : tracks nT [t] (step s t)).
+    { split; [constructor; auto; constructor|]. intros t'. cbn. split.
+      - intros [<-|[]]. auto.
+      - intros [L E]. left. symmetry. apply (mutex_inv (step s t) t' t HI' E Ein'). }
+    cbn [occ_consistent occ_next mem existsb negb andb length].
+    pose proof (count_inside_le1 _ nT HI') as L1. pose proof (count_inside_pos _ nT t Ht Ein') as L2.
+    assert (Z : count_inside (step s t) nT = 1) by lia. rewrite Z. cbn. apply IH; auto.
+  - apply (IH cur); auto. apply Keep. intros t'. destruct (Nat.eq_dec t' t) as [->|Hn]; [congruence|auto].
+Qed.
+
 (* in the shape of Case_C02.ok on the model's own trace *)
 Theorem occupancy_monitor_accepts_model :
   forall cfg fl progs trace,
     let nT := length progs in
     let '(g, s, oc) := replay nT (init_sched cfg fl progs) trace in
-    viol s = false ->
-    forallb entry_ok oc = true.
+    viol s = false -> nocrash trace = true ->
+    occ_ok oc = true.
 Proof.
   intros cfg fl progs trace nT.
+  assert (HT0 : tracks nT [] (init_sched cfg fl progs)).
+  { split; [constructor|]. intros t. cbn [In]. split; [tauto|]. intros [L E]. exfalso.
+    assert (Z : forall l t, t_cs (nth_fun (map (thr0 0) l) (thr0 0 []) t) = []).
+    { induction l as [|x r IH]; intros [|t']; cbn; auto. }
+    assert (E' : inside_b (init_sched cfg fl progs) t = false).
+    { unfold inside_b. replace (t_cs (thr (init_sched cfg fl progs) t)) with (@nil oid) by (symmetry; apply Z). apply andb_false_r. }
+    rewrite E' in E. discriminate. }
   pose proof (occupancy_monitor_complete_lemma nT trace (init_sched cfg fl progs)) as H.
+  pose proof (consistent_complete nT trace (init_sched cfg fl progs) []) as H2.
   pose proof (replay_state nT trace (init_sched cfg fl progs)) as E.
   destruct (replay nT (init_sched cfg fl progs) trace) as [[g s] oc]. cbn in *. subst s.
-  intros Hv. apply H; auto.
-  - unfold init_sched.
+  intros Hv Hnc.
+  assert (HI : Inv (init_sched cfg fl progs)).
+  { unfold init_sched.
     replace (init (map (fun c => obj0 0 (fst c) (snd c)) cfg) (map (thr0 0) progs) fl)
       with (init_cfg (map (fun c => (0, fst c, snd c)) cfg) (map (fun p => (0, p)) progs) fl).
     + apply Inv_init.
-    + unfold init_cfg. now rewrite !map_map.
-  - intros t Ht. unfold init_sched, init. cbn.
-    assert (G : forall l t, length l <= t -> nth_fun (map (thr0 0) l) (thr0 0 []) t = thr0 0 []).
-    { induction l as [|x r IH]; intros [|t'] L; cbn in *; auto; try lia. apply IH. lia. }
-    rewrite G by exact Ht. auto.
+    + unfold init_cfg. now rewrite !map_map. }
+  assert (G : forall l t, length l <= t -> nth_fun (map (thr0 0) l) (thr0 0 []) t = thr0 0 []).
+  { induction l as [|x r IH]; intros [|t'] L; cbn in *; auto; try lia. apply IH. lia. }
+  assert (HQ : quiet_beyond nT (init_sched cfg fl progs)).
+  { intros t Ht. unfold init_sched, init. cbn. rewrite G by exact Ht. auto. }
+  unfold occ_ok. rewrite H, H2; auto.
 Qed.
 
 Theorem monitor_complete_lemma :
   forall cfg fl progs trace r0 o0 f0 e0 k0,
     let '(g, rs, oc, fin, ec, vi) := model_trace (CSched cfg fl progs trace r0 o0 f0 e0 k0) in
-    vi = false -> ok (CSched cfg fl progs trace rs oc fin ec 0) = true.
+    vi = false -> nocrash trace = true -> ok (CSched cfg fl progs trace rs oc fin ec 0) = true.
 Proof.
   intros cfg fl progs trace r0 o0 f0 e0 k0. unfold ok, model_trace.
   pose proof (occupancy_monitor_accepts_model cfg fl progs trace) as H. cbv zeta in H.
   destruct (replay (length progs) (init_sched cfg fl progs) trace) as [[g s] oc].
-  intros Hv. rewrite Hv. cbn [orb]. rewrite andb_true_r. apply H, Hv.
+  intros Hv Hnc. rewrite Hv. cbn [orb]. rewrite andb_true_r. apply H; auto.
+Qed.
+
+(* ---------- model-free soundness: what an accepted occupancy log means ---------------------------- *)
+
+(* the set of threads inside after a prefix of the log, computed from the enter / exit events alone *)
+Definition inside_after (occ : list occ_entry) : list nat := fold_left occ_next occ [].
+
+Lemma consistent_sound : forall occ cur,
+  forallb entry_ok occ = true -> occ_consistent cur occ = true -> NoDup cur -> length cur <= 1 ->
+  forall k, NoDup (fold_left occ_next (firstn k occ) cur) /\ length (fold_left occ_next (firstn k occ) cur) <= 1.
+Proof.
+  induction occ as [|x r IH]; intros cur He Hc ND HL k.
+  - destruct k; cbn; auto.
+  - destruct k as [|k]; [cbn; auto|]. cbn [firstn fold_left].
+    cbn [forallb occ_consistent] in *. apply andb_prop in He. destruct He as [He1 He].
+    apply andb_prop in Hc. destruct Hc as [Hc1 Hc].
+    destruct x as [[[t e] n] lk]. apply andb_prop in Hc1. destruct Hc1 as [Hm Hn]. apply Nat.eqb_eq in Hn.
+    unfold entry_ok in He1. apply andb_prop in He1. destruct He1 as [He1 _]. apply andb_prop in He1. destruct He1 as [Hle _].
+    apply Nat.leb_le in Hle.
+    apply IH; auto; [|lia].
+    unfold occ_next. destruct e.
+    + constructor; auto. intros C. apply mem_In in C. rewrite C in Hm. discriminate.
+    + unfold del. apply NoDup_filter. exact ND.
+Qed.
+
+Theorem occupancy_sound_lemma :
+  forall occ, occ_ok occ = true ->
+    forall k, NoDup (inside_after (firstn k occ)) /\ length (inside_after (firstn k occ)) <= 1.
+Proof.
+  intros occ H k. unfold occ_ok in H. apply andb_prop in H. destruct H as [A B].
+  apply (consistent_sound occ []); auto. constructor.
+Qed.
+
+Theorem monitor_sound_C02_lemma :
+  forall cfg fl progs trace results occ final endcode km,
+    ok (CSched cfg fl progs trace results occ final endcode km) = true ->
+    km = 0 /\
+    (snd (model_trace (CSched cfg fl progs trace results occ final endcode km)) = false ->
+     forall k, NoDup (inside_after (firstn k occ)) /\ length (inside_after (firstn k occ)) <= 1).
+Proof.
+  intros cfg fl progs trace results occ final endcode km H. unfold ok in H.
+  destruct (model_trace (CSched cfg fl progs trace results occ final endcode km)) as [[[[[g rs] oc] fin] ec] vi] eqn:E.
+  apply andb_prop in H. destruct H as [A B]. apply Nat.eqb_eq in B. split; auto.
+  cbn [snd]. intros ->. cbn [orb] in A. now apply occupancy_sound_lemma.
 Qed.
